@@ -33,6 +33,10 @@ struct DbEnv {
 
 thread_local! {
     static EQ_TICK: std::cell::Cell<i64> = const { std::cell::Cell::new(-1) };
+    /// countdown for the interned field's user `Hash` (injection kind `h`); armed value kept
+    /// separately so that `arm_injection` can copy it in
+    static HASH_TICK: std::cell::Cell<i64> = const { std::cell::Cell::new(-1) };
+    static HASH_ARMED: std::cell::Cell<i64> = const { std::cell::Cell::new(-1) };
 }
 
 #[salsa::db]
@@ -105,6 +109,15 @@ struct Ts<'db> {
 struct CH(u32);
 impl std::hash::Hash for CH {
     fn hash<H: std::hash::Hasher>(&self, state: &mut H) {
+        HASH_TICK.with(|t| {
+            let v = t.get();
+            if v > 0 {
+                t.set(v - 1);
+                if v == 1 {
+                    panic!("injected-panic hash");
+                }
+            }
+        });
         state.write_i16(0);
     }
 }
@@ -189,6 +202,19 @@ fn interp<'db>(db: &'db dyn PDb, e: &E, cx: Cx) -> V<'db> {
             } else {
                 interp(db, b, cx)
             }
+        }
+        // a literal identity constant >= 2 selects the "late specify" order: the struct is created
+        // BEFORE the flag and the specified value are evaluated (same meaning, other read order)
+        E::Mk(k, v, f, s) if matches!(**k, E::C(n) if n >= 2) => {
+            let kk = interp(db, k, cx).0 % 2;
+            let vv = interp(db, v, cx).0;
+            let t = Ts::new(db, kk, PV(vv));
+            let ff = interp(db, f, cx).0;
+            let ss = interp(db, s, cx).0;
+            if ff % 2 == 1 {
+                spec::specify(db, t, ss);
+            }
+            (vv, Some(t), None)
         }
         E::Mk(k, v, f, s) => {
             let kk = interp(db, k, cx).0 % 2;
@@ -492,6 +518,7 @@ impl Runner {
     fn arm_injection(&self) {
         let e = &self.db.env;
         EQ_TICK.with(|t| t.set(e.inject_eq.load(Ordering::Relaxed)));
+        HASH_TICK.with(|t| t.set(HASH_ARMED.with(|a| a.get())));
     }
     fn disarm_injection(&self) {
         let e = &self.db.env;
@@ -499,6 +526,8 @@ impl Runner {
         e.inject_event.store(-1, Ordering::Relaxed);
         e.inject_eq.store(-1, Ordering::Relaxed);
         EQ_TICK.with(|t| t.set(-1));
+        HASH_TICK.with(|t| t.set(-1));
+        HASH_ARMED.with(|t| t.set(-1));
     }
 
     fn step(&mut self, op: &Op) -> String {
@@ -601,6 +630,7 @@ impl Runner {
                     'b' => e.inject_body.store(*k as i64, Ordering::Relaxed),
                     'e' => e.inject_event.store(*k as i64, Ordering::Relaxed),
                     'q' => e.inject_eq.store(*k as i64, Ordering::Relaxed),
+                    'h' => HASH_ARMED.with(|t| t.set(*k as i64)),
                     _ => return "bad-op".into(),
                 }
                 "ok".into()
@@ -697,6 +727,28 @@ fn oracle_case(case: &Case, obs: &[&str], ids: &[&str], st: &mut OracleStats, ca
     let mut prev_val: Vec<Option<RV>> = vec![None; nn];
     let mut prev_dur: Vec<Option<u8>> = vec![None; nn];
     let has_lru = case.prog.nodes.iter().any(|n| n.0 == Kind::Lru);
+    fn reads_tracked(e: &E) -> bool {
+        match e {
+            // (`sv` does not count: the tracked field of a struct created before its creator read
+            // anything is itself NEVER_CHANGE)
+            E::In(_) | E::Call(_) | E::Cell(_) => true,
+            E::Add(a, b) | E::Min(a, b) | E::Max(a, b) | E::BOr(a, b) | E::BAnd(a, b) => reads_tracked(a) || reads_tracked(b),
+            E::If(c, a, b) => reads_tracked(c) || reads_tracked(a) || reads_tracked(b),
+            E::TsV(a) | E::TsK(a) | E::SymF(a) => reads_tracked(a),
+            _ => false,
+        }
+    }
+    fn late_mk(e: &E) -> bool {
+        match e {
+            E::Mk(k, v, f, s) => matches!(**k, E::C(n) if n >= 2) || late_mk(v) || late_mk(f) || late_mk(s),
+            E::Add(a, b) | E::Min(a, b) | E::Max(a, b) | E::BOr(a, b) | E::BAnd(a, b) => late_mk(a) || late_mk(b),
+            E::If(c, a, b) => late_mk(c) || late_mk(a) || late_mk(b),
+            E::TsV(a) | E::TsK(a) | E::OnTs(a) | E::Spec(a) | E::Intern(a) | E::SymF(a) | E::OnSym(a) | E::Two(_, a) | E::Push(a) => late_mk(a),
+            _ => false,
+        }
+    }
+    let spec_body_untracked = !reads_tracked(&case.prog.spec);
+    let has_late_mk = case.prog.nodes.iter().any(|n| late_mk(&n.1));
     let mut lru_cap = 2usize; // `#[salsa::tracked(lru = 2)]`
     let mut lru_requested = vec![false; nn];
     let mut lru_executed = vec![false; nn];
@@ -741,7 +793,7 @@ fn oracle_case(case: &Case, obs: &[&str], ids: &[&str], st: &mut OracleStats, ca
         // this harness since the function's last validation (its last X or V event): an input field
         // it read was written, or a function it called re-executed with a value differing from its
         // previous one (or the write changed a durability: "became less durable").
-        if core_like && !injected {
+        if core_like && !poisoned_by_injection {
             for e in &evs {
                 clock += 1;
                 let (tag, rest) = e.split_at(1);
@@ -846,7 +898,7 @@ fn oracle_case(case: &Case, obs: &[&str], ids: &[&str], st: &mut OracleStats, ca
                 writes.push((clock, *idx, d.is_some()));
             }
         }
-        if !cyclic && matches!(op, Op::Acc(_)) {
+        if !cyclic {
             for e in &evs {
                 if let Some(x) = e.strip_prefix('X').and_then(|r| r.parse::<usize>().ok()) {
                     let live = Ref::new(Env { prog: &case.prog, inputs: &inputs, cells: &cells }).created_by(x);
@@ -998,6 +1050,26 @@ fn oracle_case(case: &Case, obs: &[&str], ids: &[&str], st: &mut OracleStats, ca
                     if main != want {
                         if main.starts_with("panic:") {
                             fail(st, i, format!("key=unexpected-panic-{} got `{}` want `{}`", panic_slug(main), main, want));
+                        } else if has_late_mk && first_value_rev.is_some_and(|r| r < rev_no) && {
+                            // does some struct's specifiable-function body read no input at all
+                            // (under the current or the statically visible reads)?
+                            let mut untracked_body = spec_body_untracked;
+                            for c in 0..nn {
+                                let rv = Ref::new(Env { prog: &case.prog, inputs: &inputs, cells: &cells }).node(c);
+                                if let Some(t) = &rv.ts {
+                                    // (reads of NEVER_CHANGE fields leave the memo NEVER_CHANGE too)
+                                    if Ref::new(Env { prog: &case.prog, inputs: &inputs, cells: &cells }).spec_reads(t).iter().all(|r| durs[*r] == 3) {
+                                        untracked_body = true;
+                                    }
+                                }
+                            }
+                            untracked_body
+                        } {
+                            // known finding C10/kf3: the specifiable function's body reads nothing
+                            // tracked (its computed memo is NEVER_CHANGE, so readers record no edge
+                            // to it) and a creator whose struct exists before it reads anything
+                            // starts / stops specifying in a later revision
+                            fail(st, i, format!("key=specify-over-never-change-computed got `{}` want `{}`", main, want));
                         } else {
                             fail(st, i, format!("key=value got `{}` want `{}`", main, want));
                         }
